@@ -22,6 +22,7 @@ import GraphiqModel.Proofs.HilbertDimKet
 import GraphiqModel.Proofs.HilbertDimReset
 import GraphiqModel.Proofs.HilbertDimMix
 import GraphiqModel.Proofs.HilbertDimProg
+import GraphiqModel.Proofs.HilbertDimAdjoint
 namespace Graphiq.C07
 open Graphiq Graphiq.PRow Graphiq.Tab
 
@@ -1115,6 +1116,26 @@ theorem partial_trace_of_tensor_is_factor (a b t' : Tab) (os : List Bool) (ha : 
       rho b.n (STab.ofTab t') = ptraceList (removalList (a.n + b.n) (rightSites a.n b.n))
         (rho (b.n + (removalList (a.n + b.n) (rightSites a.n b.n)).length) (STab.ofTab (Tab.tensor2 a b)))) :=
   ⟨rho_partialTrace_tensor_left a b t' os ha hb ra rb, rho_partialTrace_tensor_right a b t' os ha hb ra rb⟩
+
+/-- **`ptraceSite` / `ptraceList` are the partial trace**: they satisfy its defining property — adjoint, for the trace
+    pairing, of the embedding `A ↦ A ⊗ 1` of the operators on the kept qubits — and are determined by it; the embedding of
+    the matrix of a Pauli row is the matrix of the row with identity columns inserted (`embedCols`, the map in
+    `partial_trace_factor_spec`) -/
+theorem partial_trace_defining_property {m : Nat} (rem : List Nat) (hlt : ∀ q, q ∈ rem → q < m + rem.length)
+    (hpw : rem.Pairwise (· > ·)) (M : Matrix (Bits (m + rem.length)) (Bits (m + rem.length)) ℂ) :
+    (∀ A : Matrix (Bits m) (Bits m) ℂ, Matrix.trace (ptraceList rem M * A) = Matrix.trace (M * embedOp rem A)) ∧
+    (∀ N : Matrix (Bits m) (Bits m) ℂ, (∀ A, Matrix.trace (N * A) = Matrix.trace (M * embedOp rem A)) →
+      N = ptraceList rem M) ∧
+    (∀ P : PRow, pauliMat (m + rem.length) (embedCols rem P) = embedOp rem (pauliMat m P)) :=
+  ⟨ptraceList_adjoint rem hlt hpw M, ptraceList_unique rem hlt hpw M, pauliMat_embedCols rem hlt hpw⟩
+
+/-- the same for one site: `tr(Tr_q(M) · A) = tr(M · (A ⊗_q 1))`, which determines `Tr_q M` -/
+theorem partial_trace_site_defining_property {m : Nat} (q : Nat) (hq : q ≤ m)
+    (M : Matrix (Bits (m + 1)) (Bits (m + 1)) ℂ) :
+    (∀ A : Matrix (Bits m) (Bits m) ℂ, Matrix.trace (ptraceSite q M * A) = Matrix.trace (M * insSite q A 1)) ∧
+    (∀ N : Matrix (Bits m) (Bits m) ℂ, (∀ A, Matrix.trace (N * A) = Matrix.trace (M * insSite q A 1)) →
+      N = ptraceSite q M) :=
+  ⟨ptraceSite_adjoint q hq M, ptraceSite_unique q hq M⟩
 
 /-- **the site-wise partial trace and the Kronecker product fit together**: `Tr_B (A ⊗ B) = tr(B) · A` for the iterated
     partial trace over the last block (any `A`, `B`), in particular `Tr_B (ρ(a) ⊗ ρ(b)) = ρ(a)` with the removal list that
